@@ -7,7 +7,7 @@ loops let a stop request through.  This unit reads the class statements (AST; no
 import ast, hashlib
 import z3
 
-from pyvc.unit import Unit, load_source, find_function
+from pyvc.unit import Unit, LemmaUnit, load_source, find_function
 from pyvc.core import Obligation
 from pyvc import vals as V
 
@@ -58,4 +58,45 @@ class ClassTree(Unit):
         return res
 
 
-AXIOM_UNITS = [ClassTree]
+class SeqLemmas(LemmaUnit):
+    """Lemmas of the sequence theory whose *instances* the engine hands to the solver as hints (pyvc.core.SeqIter.pull -> vals.prefix_extension), proved here on
+    every run for an arbitrary sequence and index, so that no instance is an unchecked assumption.  They are theorems (they exclude no state); they are stated
+    because z3's sequence solver derives them by itself only erratically inside a larger query: the loop-preservation query of `for x in buffer: yield x` took
+    0.1 s .. > 60 s depending on build, random seed and machine load, and so did the lemma "prefix extension" asked as ONE query.
+
+    So the lemma is proved in three steps that each solver build decides in milliseconds for every seed tried, plus a syntactic instantiation:
+      L1 split        0 <= i < len(s)                  |-  s == s[:i] ++ [s[i]] ++ s[i+1:]
+      L2 prefix len   0 <= i < len(s)                  |-  len(s[:i]) == i
+      L3 compose      t == a ++ [x] ++ b, len(a) == j  |-  t[:j+1] == a ++ [x]            (t, a, x, b, j arbitrary *constants*: no extract term on the left)
+      prefix extension = L3 at (t, a, x, b, j) := (s, s[:i], s[i], s[i+1:], i): its two hypotheses are then literally the conclusions of L1 and L2 and its conclusion is
+      literally vals.prefix_extension(s, i) -- checked term by term (z3 AST identity) when the unit is built; a mismatch makes the unit, and with it the check,
+      UNDECIDED (an engine matter, never a violation of a property)."""
+    prop = 'AX'
+    qual = 'lemma(seq)'
+    isolated = True
+
+    def lemmas(self):
+        s, t, a, b = z3.Consts('lem_s lem_t lem_a lem_b', V.SeqV)
+        i, j = z3.Ints('lem_i lem_j')
+        x = z3.Const('lem_x', V.Val)
+        n = z3.Length(s)
+        in_range = [i >= 0, i < n]
+        A, X, B = z3.SubSeq(s, 0, i), s[i], z3.SubSeq(s, i + 1, n - i - 1)
+        l1 = s == z3.Concat(A, z3.Unit(X), B)
+        l2 = z3.Length(A) == i
+        l3_hyps = [t == z3.Concat(a, z3.Unit(x), b), z3.Length(a) == j]
+        l3_goal = z3.SubSeq(t, 0, j + 1) == z3.Concat(a, z3.Unit(x))
+        yield ('L1 split: s == s[:i] ++ [s[i]] ++ s[i+1:] for 0 <= i < len(s)', in_range, l1)
+        yield ('L2 prefix length: len(s[:i]) == i for 0 <= i < len(s)', in_range, l2)
+        yield ('L3 compose: t == a ++ [x] ++ b and len(a) == j imply t[:j+1] == a ++ [x]', l3_hyps, l3_goal)
+        sub = ((t, s), (a, A), (x, X), (b, B), (j, i))
+        inst_hyps = [z3.substitute(h, *sub) for h in l3_hyps]
+        inst_goal = z3.substitute(l3_goal, *sub)
+        assert inst_hyps[0].eq(l1) and inst_hyps[1].eq(l2), 'the hypotheses of L3 instantiated at (s, s[:i], s[i], s[i+1:], i) are not literally L1 and L2'
+        assert inst_goal.eq(V.prefix_extension(s, i)), 'the conclusion of that instance is not literally the formula the engine assumes (vals.prefix_extension)'
+        # the same three facts as hypotheses of one query is NOT asked of the solver: with the extract terms back in, it is as erratic as the direct question
+        yield ('prefix extension: s[:i+1] == s[:i] ++ [s[i]] for 0 <= i < len(s) is L3 instantiated at (s, s[:i], s[i], s[i+1:], i), whose hypotheses are literally '
+               'L1 and L2 (term identity checked at construction)', [], z3.BoolVal(True))
+
+
+AXIOM_UNITS = [ClassTree, SeqLemmas]
